@@ -80,14 +80,65 @@ theorem foldl_snSend_pingers (its : List BufItem) : ∀ g : Gw,
   | cons x xs ih => intro g; simp only [List.foldl_cons]; rw [ih, snSend_pingers]
 
 /-- **C34.** A new sleep period replaces the pinger of the previous one: at most one pinger runs,
-    the one started for the period announced now (if it is longer than the keep-alive). -/
+    the one started for the period announced now; it is cancelled at the end of that period. -/
 theorem c34_pinger_replaced (g : Gw) (d : UInt16) :
     (g.handleSleep d).pingers =
-      if g.keepAlive ≠ 0 ∧ d > g.keepAlive then
+      if g.keepAlive ≠ 0 then
         [{ next := g.now + g.keepAlive.toNat * 1000, cancelAt := g.now + d.toNat * 1000, period := g.keepAlive.toNat * 1000 }]
       else [] := by
-  unfold handleSleep clearBufferUnlessAsleep maybeSleepPinger
+  unfold handleSleep clearBufferUnlessAsleep armSleepPinger
   split <;> (split <;> simp_all [snSendNow, emit, setSt, startSleepPinger, cancelSleepPinger, clearBuffer])
+
+theorem snSend_keepAlive (g : Gw) (p : Pkt) (tx : Option Nat) : (g.snSend p tx).keepAlive = g.keepAlive := by
+  unfold snSend; split <;> rfl
+theorem snSend_now34 (g : Gw) (p : Pkt) (tx : Option Nat) : (g.snSend p tx).now = g.now := by
+  unfold snSend; split <;> rfl
+theorem foldl_snSend_ka_now (its : List BufItem) : ∀ g : Gw,
+    (its.foldl (fun g (it : BufItem) => g.snSend it.pkt it.tx) g).keepAlive = g.keepAlive ∧
+    (its.foldl (fun g (it : BufItem) => g.snSend it.pkt it.tx) g).now = g.now := by
+  induction its with
+  | nil => intro g; exact ⟨rfl, rfl⟩
+  | cons x xs ih =>
+    intro g; simp only [List.foldl_cons]
+    exact ⟨(ih _).1.trans (snSend_keepAlive _ _ _), (ih _).2.trans (snSend_now34 _ _ _)⟩
+theorem flushBuffer_ka_now (g : Gw) : g.flushBuffer.keepAlive = g.keepAlive ∧ g.flushBuffer.now = g.now := by
+  unfold flushBuffer
+  simp only
+  exact foldl_snSend_ka_now g.buffer _
+
+/-- **C34.** A wake-up (PINGREQ of a sleeping client) starts the next sleep cycle: again one pinger, which
+    is cancelled one announced duration after THIS wake-up — a client that never wakes up again is
+    pinged for no longer than the duration it announced. -/
+theorem c34_pinger_of_the_next_cycle (g : Gw) (h : g.st = .asleep) :
+    g.handlePingreq.pingers =
+      if g.keepAlive ≠ 0 then
+        [{ next := g.now + g.keepAlive.toNat * 1000, cancelAt := g.now + g.sleepDur.toNat * 1000,
+           period := g.keepAlive.toNat * 1000 }]
+      else [] := by
+  have hk : (((g.setSt .awake).flushBuffer.snSend .pingresp).setSt .asleep).keepAlive = g.keepAlive := by
+    show ((g.setSt .awake).flushBuffer.snSend .pingresp).keepAlive = g.keepAlive
+    rw [snSend_keepAlive, (flushBuffer_ka_now _).1]; rfl
+  have hn : (((g.setSt .awake).flushBuffer.snSend .pingresp).setSt .asleep).now = g.now := by
+    show ((g.setSt .awake).flushBuffer.snSend .pingresp).now = g.now
+    rw [snSend_now34, (flushBuffer_ka_now _).2]; rfl
+  have hsd : (((g.setSt .awake).flushBuffer.snSend .pingresp).setSt .asleep).sleepDur = g.sleepDur := by
+    show ((g.setSt .awake).flushBuffer.snSend .pingresp).sleepDur = g.sleepDur
+    have e1 : ∀ (x : Gw) (p : Pkt) (tx : Option Nat), (x.snSend p tx).sleepDur = x.sleepDur := by
+      intro x p tx; unfold snSend; split <;> rfl
+    have e2 : ∀ (its : List BufItem) (x : Gw), (its.foldl (fun g (it : BufItem) => g.snSend it.pkt it.tx) x).sleepDur = x.sleepDur := by
+      intro its; induction its with
+      | nil => intro x; rfl
+      | cons y ys ih => intro x; simp only [List.foldl_cons]; rw [ih, e1]
+    rw [e1]; unfold flushBuffer; simp only; rw [e2]; rfl
+  unfold handlePingreq
+  simp only [h, if_true]
+  unfold armSleepPinger
+  rw [hk]
+  split
+  · rename_i h0; simp [h0, cancelSleepPinger]
+  · rename_i h0
+    simp only [startSleepPinger, cancelSleepPinger, h0, ne_eq, not_false_eq_true, if_true, List.nil_append]
+    rw [hk, hn]
 
 /-- **C34.** A sleeping client that re-CONNECTs has no pinger any more: from then on only its own
     traffic keeps the broker connection alive, so a client vanishing afterwards is dropped by the broker. -/
